@@ -25,7 +25,11 @@ Definition every_enum_field_has_cli : bool :=
 (* the command line carries every non-deprecated configuration field, and load_overrides applies every one of them *)
 Definition live_fields : list string := flat_map (fun x__ : string * string * bool => let '(f, _, dep) := x__ in if dep then [] else [f]) config_fields.
 Definition cli_carries_all_fields : bool := set_eq format_opts_fields live_fields.
-Definition overrides_apply_all : bool := set_eq override_fields format_opts_fields.
+(* ... load_overrides applies every flag, and what it touches beyond the flags are deprecated fields only (since the repair D46 the
+   flag --call-parentheses also clears the deprecated no_call_parentheses of a configuration file) *)
+Definition deprecated_fields : list string := flat_map (fun x__ : string * string * bool => let '(f, _, dep) := x__ in if dep then [f] else []) config_fields.
+Definition overrides_apply_all : bool :=
+  subset format_opts_fields override_fields && forallb (fun f => mem f format_opts_fields || mem f deprecated_fields) override_fields.
 (* README: every option row names a field; its default is the library's; its "possible options" are exactly the variants *)
 Definition readme_row_ok (row : string * string * list string) : bool :=
   let '(name, default, possible) := row in
